@@ -52,3 +52,16 @@ def runSuite (S : Suite) : IO Unit := do
   stdout.flush
 
 end Oracle
+
+namespace Oracle
+/-- `main` of every per-property oracle executable -/
+def mainWith (suites : List (String × Suite)) (args : List String) : IO UInt32 := do
+  match args with
+  | [name] =>
+    match suites.lookup name with
+    | some S => runSuite S; return 0
+    | none => IO.eprintln s!"unknown suite {name}"; return 2
+  | _ =>
+    IO.eprintln ("usage: oracle <suite>; suites: " ++ ", ".intercalate (suites.map (·.1)))
+    return 2
+end Oracle
